@@ -28,7 +28,8 @@ PY = sys.executable
 
 def run_job(spec: dict, timeout: float) -> dict:
     env = dict(os.environ)
-    env["PYTHONPATH"] = ROOT
+    alt = os.environ.get("VERIF_REPO")
+    env["PYTHONPATH"] = (alt + "/src:" if alt else "") + ROOT
     env["PYTHONDONTWRITEBYTECODE"] = "1"
     env["PYTHONHASHSEED"] = "0"
     t = time.time()
